@@ -61,3 +61,8 @@ chk("C18",
     "(backends) explicit-state BFS over C07's operation alphabet with a recording StatsTracker, comparing metric totals with reference-model-derived counts after every transition; (Failover) the complete lone-Get decision table and concurrent 2-3 thread workloads on two keys (incl. SkipRead) under the scheduler, comparing totals at quiescence with the harness's own operation log in every explored schedule.",
     "Trusted: harness operation log (pass-through backend wrapper, builder counters). Reads of Failover's internal failure cache are not observable and not accounted.",
     "explicit-state BFS + stateless model checking of the implementation (preemption-bounded DFS)", "DESIGN.md §C18")
+
+chk("C09",
+    "Explicit-state BFS over operation sequences on three constructed, pairwise xxhash64-colliding keys plus a plain key (3 backends, with and without key-buffer scribbling after every call) against an ideal per-key model that only tolerates a miss explained by a later colliding write; plus exhaustive schedule enumeration of Failover Gets whose caller overwrites or reuses the key buffer at every scheduling position relative to the background build.",
+    "Trusted: the collision construction is asserted against cespare/xxhash at run time; ideal model ref.ExpMap. Colliding keys other than the constructed 64-byte family are not explored.",
+    "constructed adversarial inputs + explicit-state BFS + stateless model checking of the implementation", "DESIGN.md §C09")
